@@ -339,6 +339,45 @@ def r172(ctx, rep):
             ok = True
         if isinstance(node, ast.BinOp) and isinstance(node.op, ast.Sub) and is_mid_ref(node.right):
             ok = True
+    # the two kinds are handled independently: the equality residual must not be
+    # conditioned on the inequality components of the same object (and vice versa)
+    def idx_names(exprs):
+        out = set()
+        for e_ in exprs:
+            for sub in ast.walk(e_):
+                if isinstance(sub, ast.Subscript) and isinstance(sub.value, ast.Subscript) and isinstance(sub.value.value, ast.Attribute) and sub.value.value.attr == "bounds" and isinstance(sub.slice, ast.Name):
+                    out.add(sub.slice.id)
+        return out
+    ineq_names = set()
+    for node in ast.walk(f.node):
+        if isinstance(node, ast.Assign) and len(node.targets) == 1 and isinstance(node.targets[0], ast.Name) and node.targets[0].id in bound_side and not is_mid(node.value):
+            ineq_names |= idx_names([node.value])
+    eq_names = set()
+    for node in ast.walk(f.node):
+        if isinstance(node, ast.BinOp) and is_mid(node):
+            eq_names |= idx_names([node])
+    ineq_names -= eq_names
+    res_stmts = []
+    for node in ast.walk(f.node):
+        if isinstance(node, ast.AugAssign) and isinstance(node.op, ast.Sub) and is_mid_ref(node.value):
+            res_stmts.append(node)
+        if isinstance(node, ast.Assign) and isinstance(node.value, ast.BinOp) and isinstance(node.value.op, ast.Sub) and is_mid_ref(node.value.right):
+            res_stmts.append(node)
+    for st in res_stmts:
+        for kind, test, _n in enclosing_context(st, f.node):
+            if kind in ("if-true", "if-false") and ineq_names and mentions(test, *ineq_names):
+                ok = False
+                rep.bad("R17.2", "equality residual independent of the inequality components")
+                rep.finding("R17.2", f, norm(st), st.lineno,
+                            f"the equality residual (value - midpoint) is only formed under `{'not ' if kind == 'if-false' else ''}{norm(test)}`: in a constraint object that mixes equality and "
+                            "inequality components the level is not subtracted and the internal equality becomes fun(x) = 0 instead of fun(x) = lb")
+                return
+    for node, l, r, m in slacks:
+        for kind, test, _n in enclosing_context(node, f.node):
+            if kind == "if-false" and eq_names and mentions(test, *eq_names):
+                rep.bad("R17.2", "slacks independent of the equality components")
+                rep.finding("R17.2", f, norm(node), node.lineno, f"the inequality slack is only formed when `{norm(test)}` fails: mixed objects lose their inequalities")
+                return
     if ok:
         rep.ok("R17.2", f"{f.local}: equality residual = value - 0.5*(lb + ub)")
     else:
@@ -557,3 +596,43 @@ def run(ctx, rep):  # noqa: F811
     _old_run17(ctx, rep)
     rep.rule("R17.6", "the counters that gate the assembly of the collected nonlinear constraint values accumulate over all constraint objects")
     r176(ctx, rep)
+
+
+# ---------------------------------------------------------------------------
+def r177(ctx, rep):
+    """The tolerance of the equality test lb == ub must be a finite number for
+    any limits: the magnitudes entering it are restricted to the *finite*
+    entries (isfinite drops NaN as well as +-inf; a NaN limit means "no limit"
+    and must not turn the tolerance into NaN, which would make every equal pair
+    fail the test and be emitted as two inequalities)."""
+    f = ctx.func("cobyqa.utils.math:get_arrays_tol")
+    n = 0
+    for node in ast.walk(f.node):
+        if isinstance(node, ast.Call) and _short(node) in ("max", "nanmax", "amax") and node.args:
+            for sub in ast.walk(node.args[0]):
+                if isinstance(sub, ast.Subscript) and isinstance(sub.value, ast.Name):
+                    n += 1
+                    m = sub.slice
+                    desc = f"{f.local}:{node.lineno} magnitude over `{norm(sub)}`"
+                    if _short(m) == "isfinite" and m.args and norm(m.args[0]) == sub.value.id:
+                        rep.ok("R17.7", desc + " (finite entries only)")
+                    else:
+                        rep.bad("R17.7", desc)
+                        rep.finding("R17.7", f, norm(node)[:100], node.lineno,
+                                    f"the magnitude that scales the tolerance is taken over `{norm(m)}`, which does not exclude NaN (and/or infinite) entries: one NaN limit makes the tolerance NaN, "
+                                    "`abs(ub - lb) <= tol` is then false for every component and lb == ub pairs are no longer recognised as equalities")
+    if n < 1:
+        # the reduction may be written with nan-aware functions over the whole array
+        if any(isinstance(x, ast.Call) and _short(x) in ("nanmax",) for x in ast.walk(f.node)) and any(isinstance(x, ast.Call) and _short(x) == "isfinite" for x in ast.walk(f.node)):
+            rep.ok("R17.7", f"{f.local}: nan-aware magnitude")
+            return
+        raise AnalysisError("get_arrays_tol: the magnitude of the finite entries (max |a[isfinite(a)]|) was not found")
+
+
+_old_run17b = run
+
+
+def run(ctx, rep):  # noqa: F811
+    _old_run17b(ctx, rep)
+    rep.rule("R17.7", "the tolerance of the equality test only depends on the finite entries of the limits")
+    r177(ctx, rep)
